@@ -1,6 +1,7 @@
 /-
-  PS.Model.Encode — the formulas each constructor of the library builds (pure functions).
-  One definition per Python code path; the comments give the source lines they mirror.
+  PS.Model.Encode — the formulas each constructor of the library builds, as pure functions
+  of the resolved description.  One definition per Python code path; comments name the
+  source they mirror.
 -/
 import PS.Model.Types
 namespace PS
@@ -42,7 +43,7 @@ def Task.baseList (t : Task) : List Fml :=
 def Task.isVar (t : Task) : Bool := match t.kind with | .var .. => true | _ => false
 
 /-- where an unscheduled optional task is parked: `-task_number` -/
-def Task.pastPoint (t : Task) : Int := - (t.num : Int)
+def Task.pastPoint (t : Task) : Int := - ((t.num0 : Int) + 1)
 
 def Task.notScheduled (t : Task) : Fml :=
   .and ([.eq t.sVar (numT t.pastPoint), .eq t.eVar (numT t.pastPoint)] ++
@@ -71,7 +72,9 @@ def Select.flags (s : Select) : List Fml := s.workers.map (fun w => Fml.bvar (.s
 /-- `SelectWorkers._selection_assertion` -/
 def Select.assertion (s : Select) : Fml := pbFun s.kind s.flags s.n
 
-/-- the formula(s) one requirement adds to its task -/
+def Req.past (r : Req) : Int := - ((r.past0 : Int) + 2)
+
+/-- the formula(s) one required worker adds to its task -/
 def Req.fmls (t : Task) (r : Req) : List Fml :=
   match r.sel with
   | some s =>
@@ -88,6 +91,192 @@ def Req.fmls (t : Task) (r : Req) : List Fml :=
          if r.delayIn > 0 then .eq (bS r.worker t.name false) (.add t.sVar (numT r.delayIn))
          else .eq (bS r.worker t.name false) t.sVar]
 
+def ReqEvent.fmls (t : Task) : ReqEvent → List Fml
+  | .direct _ r => r.fmls t
+  | .viaSelect _ s rs withCount => rs.flatMap (·.fmls t) ++ (if withCount then [s.assertion] else [])
+
+/-- `task._z3_assertions` -/
+def State.taskAsserts (st : State) (t : Task) : List Fml :=
+  t.initAsserts ++ (st.eventsOf t.name).flatMap (·.fmls t)
+
+/-! ### helpers shared by constraints and indicators (util.py) -/
+
+/-- `sort_no_duplicates`: fresh `a_i`, each equal to one of the inputs, strictly increasing -/
+def sortNoDup (fresh : Nat → IVar) (xs : List Term) : List Term × List Fml :=
+  let n := xs.length
+  let a := (List.range n).map (fun i => Term.var (fresh i))
+  let cs := a.map (fun ai => Fml.or (xs.map (fun x => Fml.eq ai x)))
+  let inc := Fml.and ((List.range (n - 1)).map (fun i => Fml.lt (a.getD i default) (a.getD (i + 1) default)))
+  (a, cs ++ [inc])
+
+def getMaximum (m : Term) (xs : List Term) : List Fml :=
+  Fml.or (xs.map (fun x => Fml.eq m x)) :: xs.map (fun x => Fml.ge m x)
+
+def getMinimum (m : Term) (xs : List Term) : List Fml :=
+  Fml.or (xs.map (fun x => Fml.eq m x)) :: xs.map (fun x => Fml.le m x)
+
+/-! ### Constraints (task_constraint.py, resource_constraint.py, first_order_logic.py, constraint.py) -/
+
+/-- guard used by the one-task constraints -/
+def guard1 (t : Task) (f : Fml) : Fml := if t.optional then .imp (.bvar (.sched t.name)) f else f
+
+/-- guard used by the two-task constraints: `Implies(And(s1, s2), f)` if either is optional -/
+def guard2 (t1 t2 : Task) (f : Fml) : Fml :=
+  if t1.optional || t2.optional then .imp (.and [t1.schedF, t2.schedF]) f else f
+
+def ordRel (k : OrdKind) (a b : Term) : Fml :=
+  match k with
+  | .lax => .le a b
+  | .strict => .lt a b
+  | .tight => .eq a b
+
+/-- `TaskGroup.__init__` : the list `_scheduled_assertion` -/
+def groupBase (c : Nat) (ts : List Task) (window : Option (Int × Int)) (len : Int) : List Fml :=
+  let gS := Term.var (.grpS c)
+  let gE := Term.var (.grpE c)
+  (match window with
+   | some (lo, hi) => [Fml.ge gS (numT lo), Fml.le gE (numT hi)]
+   | none => [Fml.le gE (.add gS (numT len))]) ++
+  ts.flatMap (fun t => [Fml.ge t.sVar gS, Fml.le t.eVar gE])
+
+def consecutive (k : OrdKind) : List Task → List Fml
+  | a :: b :: rest => ordRel k a.eVar b.sVar :: consecutive k (b :: rest)
+  | _ => []
+
+/-- the gap conditions shared by TasksContiguous / ResourceNonDelay / ResourceTasksDistance /
+    IndicatorResourceIdle: pairs `(sorted_ends[i-1], sorted_starts[i])`, `i = 1 .. n-1` -/
+def gapPairs (ss se : List Term) : List (Term × Term) :=
+  (List.range (ss.length - 1)).map (fun i => (se.getD i default, ss.getD (i + 1) default))
+
+/-- ScheduleNTasksInTimeIntervals: formulas for one (task, interval) pair -/
+def inIntervalFml (b : Fml) (t : Task) (iv : Int × Int) : Fml :=
+  let lo := numT iv.1
+  let hi := numT iv.2
+  .imp b (.and [.ge t.sVar lo, .le t.eVar hi,
+    .not (.and [.lt t.sVar lo, .gt t.eVar lo]),
+    .not (.and [.lt t.sVar hi, .gt t.eVar hi]),
+    .not (.and [.lt t.sVar lo, .gt t.eVar hi])])
+
+/-- WorkLoad: the six formulas for one busy interval and one time interval -/
+def workloadOne (dur : Term) (b : BusyRef) (lo hi : Int) : List Fml :=
+  let s := b.s
+  let e := b.e
+  let c1 := Fml.and [.ge s (numT lo), .le e (numT hi)]
+  let c2 := Fml.and [.lt s (numT lo), .gt e (numT lo)]
+  let c3 := Fml.and [.lt s (numT hi), .gt e (numT hi)]
+  let c4 := Fml.and [.lt s (numT lo), .gt e (numT hi)]
+  [.ge dur (numT 0),
+   .imp c1 (.eq dur (.sub e s)),
+   .imp c2 (.eq dur (.sub e (numT lo))),
+   .imp c3 (.eq dur (.sub (numT hi) s)),
+   .imp c4 (.eq dur (numT (hi - lo))),
+   .imp (.not (.or [c1, c2, c3, c4])) (.eq dur (numT 0))]
+
+def cmpRel (k : CountKind) (a b : Term) : Fml :=
+  match k with
+  | .exact => .eq a b
+  | .max => .le a b
+  | .min => .ge a b
+
+/-- formulas of one WorkLoad interval; `k0` = number of Overlap variables already used -/
+def workloadInterval (c : Nat) (k0 : Nat) (busy : List BusyRef) (iv : (Int × Int) × Int) (kind : CountKind) : List Fml :=
+  let lo := iv.1.1
+  let hi := iv.1.2
+  let durs := (List.range busy.length).map (fun j => Term.var (.overlap c lo hi (k0 + j)))
+  ((busy.zip durs).flatMap (fun (b, d) => workloadOne d b lo hi)) ++ [cmpRel kind (.sum durs) (numT iv.2)]
+
+def workloadAll (c : Nat) (busy : List BusyRef) (kind : CountKind) : Nat → List ((Int × Int) × Int) → List Fml
+  | _, [] => []
+  | k0, iv :: rest => workloadInterval c k0 busy iv kind ++ workloadAll c busy kind (k0 + busy.length) rest
+
+/-- the formulas handed, one by one, to `set_z3_assertions` (or appended directly) by the
+    constructor of a constraint, before the optional-constraint wrapper -/
+def CBody.raw (c : Nat) : CBody → List Fml
+  | .startAt t v => [guard1 t (.eq t.sVar (numT v))]
+  | .startAfter t v strict => [guard1 t (if strict then .gt t.sVar (numT v) else .ge t.sVar (numT v))]
+  | .endAt t v => [guard1 t (.eq t.eVar (numT v))]
+  | .endBefore t v strict => [guard1 t (if strict then .lt t.eVar (numT v) else .le t.eVar (numT v))]
+  | .precedence b a off kind =>
+      let lower := if off > 0 then Term.add b.eVar (numT off) else b.eVar
+      [guard2 b a (ordRel kind lower a.sVar)]
+  | .startSynced t1 t2 => [guard2 t1 t2 (.eq t1.sVar t2.sVar)]
+  | .endSynced t1 t2 => [guard2 t1 t2 (.eq t1.eVar t2.eVar)]
+  | .dontOverlap t1 t2 => [guard2 t1 t2 (.xor (.ge t2.sVar t1.eVar) (.ge t1.sVar t2.eVar))]
+  | .contiguous ts =>
+      let n := ts.length
+      let (ss, c1) := sortNoDup (fun i => .fresh c i) (ts.map (·.sVar))
+      let (se, c2) := sortNoDup (fun i => .fresh c (n + i)) (ts.map (·.eVar))
+      c1 ++ c2 ++ (gapPairs ss se).map (fun (e, s) =>
+        Fml.imp (.or [.and [.ge e (numT 0), .ge s (numT 0)]]) (.eq s e))
+  | .unorderedGroup ts window len => [.and (groupBase c ts window len)]
+  | .orderedGroup ts window len kind => [.and (groupBase c ts window len ++ consecutive kind ts)]
+  | .scheduleN ts n intervals kind =>
+      let m := intervals.length
+      let perTask := (List.range ts.length).map (fun i =>
+        let t := ts.getD i default
+        let bs := (List.range m).map (fun j => Fml.bvar (.inInterval c t.name (i * m + j)))
+        (((bs.zip intervals).map (fun (b, iv) => inIntervalFml b t iv)) ++ [Fml.atMost bs 1], bs))
+      perTask.flatMap (·.1) ++ [pbFun kind (perTask.flatMap (·.2)) n]
+  | .forceSchedule t b => [.iff (.bvar (.sched t.name)) (if b then .tt else .ff)]
+  | .conditionSchedule t cond =>
+      [.ite cond (.iff (.bvar (.sched t.name)) .tt) (.iff (.bvar (.sched t.name)) .ff)]
+  | .dependency t1 t2 =>
+      [if t1.optional then .iff (.bvar (.sched t1.name)) (.bvar (.sched t2.name))
+       else .iff (.bvar (.sched t2.name)) .tt]
+  | .forceScheduleN ts n kind => [pbFun kind (ts.map (fun t => Fml.bvar (.sched t.name))) n]
+  | .fromExpr f => [f]
+  | .forceApplyN cs n kind => [pbFun kind (cs.map (fun i => Fml.bvar (.applied i))) n]
+  | .not_ o => [.not (.and o)]
+  | .or_ os => [.or os.flatten]
+  | .and_ os => [.and os.flatten]
+  | .xor_ o1 o2 => [.xor (.and o1) (.and o2)]
+  | .implies cond os => [.imp cond (.and os.flatten)]
+  | .ifThenElse cond os1 os2 => [.ite cond (.and os1.flatten) (.and os2.flatten)]
+  | .unavailable busy intervals =>
+      intervals.flatMap (fun iv => busy.map (fun b => Fml.or [.ge b.s (numT iv.2), .le b.e (numT iv.1)]))
+  | .workload busy intervals kind => workloadAll c busy kind 0 intervals
+  | .nonDelay busy =>
+      let n := busy.length
+      let (ss, c1) := sortNoDup (fun i => .fresh c i) (busy.map (·.s))
+      let (se, c2) := sortNoDup (fun i => .fresh c (n + i)) (busy.map (·.e))
+      c1 ++ c2 ++ (gapPairs ss se).map (fun (e, s) =>
+        Fml.imp (.and [.ge e (numT 0), .ge s (numT 0)]) (.eq s e))
+  | .distance busy d intervals mode =>
+      let n := busy.length
+      let (ss, c1) := sortNoDup (fun i => .fresh c i) (busy.map (·.s))
+      let (se, c2) := sortNoDup (fun i => .fresh c (n + i)) (busy.map (·.e))
+      c1 ++ c2 ++ (gapPairs ss se).map (fun (e, s) =>
+        let asst := cmpRel mode (.sub s e) (numT d)
+        let conds := match intervals with
+          | some ivs => ivs.map (fun iv => Fml.and [.ge s (numT iv.1), .ge e (numT iv.1), .le s (numT iv.2), .le e (numT iv.2)])
+          | none => [Fml.and [.ge e (numT 0), .ge s (numT 0)]]
+        Fml.imp (.or conds) asst)
+  | .sameWorkers s1 s2 =>
+      (s1.workers.filter (fun w => s2.workers.contains w)).map (fun w =>
+        Fml.iff (.bvar (.sel s1.id w)) (.bvar (.sel s2.id w)))
+  | .distinctWorkers s1 s2 =>
+      (s1.workers.filter (fun w => s2.workers.contains w)).map (fun w =>
+        Fml.neb (.bvar (.sel s1.id w)) (.bvar (.sel s2.id w)))
+  | .unloadBuffer _ _ _ => []
+  | .loadBuffer _ _ _ => []
+  | .indicatorTarget v value => [.eq (.var v) (numT value)]
+  | .indicatorBounds v lo hi =>
+      (match lo with | some l => [Fml.ge (.var v) (numT l)] | none => []) ++
+      (match hi with | some h => [Fml.le (.var v) (numT h)] | none => [])
+  | .residue => []
+  | .partial_ fs => fs
+
+/-- indicator constraints append directly; every other class goes through `set_z3_assertions` -/
+def CBody.direct : CBody → Bool
+  | .indicatorTarget .. => true
+  | .indicatorBounds .. => true
+  | _ => false
+
+/-- `constraint._z3_assertions` -/
+def Constr.asserts (c : Constr) : List Fml :=
+  if c.optional && !c.body.direct then (c.body.raw c.id).map (fun f => Fml.imp (.bvar (.applied c.id)) f)
+  else c.body.raw c.id
+
 /-! ### `initialize` pieces (solver.py:211-261) -/
 
 def Task.horizonFml (t : Task) : Fml := .le t.eVar (.var .horizon)
@@ -98,7 +287,5 @@ def noOverlapPairs (w : String) : List (String × Bool) → List Fml
   | (ti, mi) :: rest =>
       rest.map (fun (tk, mk) => Fml.or [.ge (bS w tk mk) (bE w ti mi), .ge (bS w ti mi) (bE w tk mk)])
       ++ noOverlapPairs w rest
-
-def Worker.noOverlap (w : Worker) : List Fml := noOverlapPairs w.name w.busy
 
 end PS
